@@ -435,3 +435,243 @@ Proof.
   split; [vm_compute; reflexivity|]. split; [vm_compute; reflexivity|]. split; [vm_compute; reflexivity|].
   split; [vm_compute; reflexivity|]. eexists. split; vm_compute; reflexivity.
 Qed.
+(* ------------------------------------------------------------------ idempotence, check-only hooks *)
+Open Scope list_scope.
+Section Idem.
+  Variable reset : hook -> option node.
+  Variable post : hook -> amap -> res amap.
+
+  Notation decode := (decode reset post).
+  Notation overlay := (overlay reset post).
+  Notation fixedb := (fixedb post).
+  Notation fixedsb := (fixedsb post).
+  Notation losslessb := (losslessb reset).
+  Notation losslesssb := (losslesssb reset).
+
+  (* every hook occurring in t only checks: it returns its argument or an error *)
+  Fixpoint check_only (t : ty) : Prop :=
+    match t with
+    | TPtr t' => check_only t'
+    | TSeq t' => check_only t'
+    | TRec h fs => (forall m m', post h m = Ok m' -> m' = m) /\ check_onlys fs
+    | _ => True
+    end
+  with check_onlys (fs : flds) : Prop :=
+    match fs with FNil => True | FCons _ _ t r => check_only t /\ check_onlys r end.
+
+  (* the values a field can start from (reset values, their fields, zero values of slice
+     elements and of freshly allocated pointees) are themselves valid and self-lossless *)
+  Definition good (t : ty) (b : node) : bool := wtb t b && fixedb t b && losslessb t b b.
+  Fixpoint bases_ok (t : ty) (cur : node) : bool :=
+    match t with
+    | TRegex => good t cur
+    | TPtr t' => bases_ok t' (match cur with NNull => zero t' | _ => cur end)
+    | TSeq t' => bases_ok t' (zero t')
+    | TRec h fs =>
+        match base_of reset h cur with
+        | NMap bm => wtsb fs bm && bases_oks fs bm
+        | _ => false
+        end
+    | _ => true
+    end
+  with bases_oks (fs : flds) (bm : amap) : bool :=
+    match fs, bm with
+    | FNil, [] => true
+    | FCons _ _ t r, (_, b) :: bm' => good t b && bases_ok t b && bases_oks r bm'
+    | _, _ => false
+    end.
+
+  Definition Q_ty (t : ty) : Prop :=
+    forall cur v v1, nodup_keys t = true -> check_only t -> bases_ok t cur = true -> wtb t v = true ->
+      decode t cur (pr t v) = Ok v1 ->
+      wtb t v1 = true /\ fixedb t v1 = true /\ losslessb t cur v1 = true /\
+      (isz t v1 = true -> isz t v = true) /\ (v <> NNull -> v1 <> NNull).
+  Definition Q_flds (fs : flds) : Prop :=
+    forall bm m m1 p, nodup_keyss fs = true -> NoDup (keys fs) ->
+      (forall k, In k (keys fs) -> ~ In k (map fst p)) ->
+      check_onlys fs -> bases_oks fs bm = true -> wtsb fs bm = true -> wtsb fs m = true ->
+      overlay fs bm (p ++ prs fs m) = Ok m1 ->
+      wtsb fs m1 = true /\ fixedsb fs m1 = true /\ losslesssb fs bm m1 = true /\
+      (iszs fs m1 = true -> iszs fs m = true).
+
+  Lemma good_parts : forall t b, good t b = true -> wtb t b = true /\ fixedb t b = true /\ losslessb t b b = true.
+  Proof. unfold good. intros t b H. apply andb_true_iff in H as [H H3]. apply andb_true_iff in H as [H1 H2]. auto. Qed.
+
+  Lemma lookup_prs_notin : forall r m k, ~ In k (keys r) -> lookup k (prs r m) = None.
+  Proof.
+    intros r m k Hn. destruct (lookup k (prs r m)) eqn:El; auto. exfalso. apply Hn. apply (prs_keys r m).
+    clear - El. induction (prs r m) as [|[k1 v1] q IHq]; simpl in *; try discriminate.
+    destruct (String.eqb k k1) eqn:E; [apply String.eqb_eq in E; now left | right; auto].
+  Qed.
+
+  Lemma idem_mut : (forall t, Q_ty t) /\ (forall fs, Q_flds fs).
+  Proof.
+    apply ty_flds_ind; unfold Q_ty, Q_flds.
+    - (* TInt *) intros cur v v1 _ _ _ Hw Hd. destruct v; simpl in *; try discriminate. inversion Hd. subst. simpl. repeat split; auto; discriminate.
+    - intros cur v v1 _ _ _ Hw Hd. destruct v; simpl in *; try discriminate. inversion Hd. subst. simpl. repeat split; auto; discriminate.
+    - intros cur v v1 _ _ _ Hw Hd. destruct v; simpl in *; try discriminate. inversion Hd. subst. simpl. repeat split; auto; discriminate.
+    - (* TRegex *) intros cur v v1 _ _ Hb Hw Hd. destruct v; simpl in *; try discriminate; inversion Hd; subst.
+      + simpl. repeat split; auto; discriminate.
+      + simpl in Hb. apply good_parts in Hb as [Hb1 [Hb2 Hb3]].
+        repeat split; auto; try congruence.
+    - (* TPtr *) intros t IH cur v v1 Hnd Hc Hb Hw Hd.
+      destruct (is_null v) eqn:En.
+      + destruct v; try discriminate. simpl in Hd. inversion Hd. subst. simpl. repeat split; auto.
+      + assert (Hv : v <> NNull) by (intro; subst; discriminate).
+        rewrite (ptr_nn_wtb t v Hv) in Hw. rewrite (ptr_nn_pr t v Hv) in Hd.
+        rewrite ptr_nn_decode in Hd by (now apply pr_not_null).
+        simpl in Hb.
+        destruct (IH _ v v1 Hnd Hc Hb Hw Hd) as [H1 [H2 [H3 [H4 H5]]]].
+        specialize (H5 Hv).
+        rewrite (ptr_nn_wtb t v1 H5), (ptr_nn_fixedb post t v1 H5), (ptr_nn_losslessb reset t cur v1 H5).
+        repeat split; auto.
+        intro Hz. destruct v1; simpl in Hz; try discriminate. congruence.
+    - (* TSeq *) intros t IH cur v v1 Hnd Hc Hb Hw Hd.
+      destruct v; simpl in Hw; try discriminate. simpl in Hd.
+      simpl in Hb.
+      match type of Hd with bind (?g _) _ = _ => set (go := g) in * end.
+      assert (Hgo : forall xs ys, forallb (wtb t) xs = true -> go (map (pr t) xs) = Ok ys ->
+                 forallb (wtb t) ys = true /\ forallb (fixedb t) ys = true /\
+                 forallb (losslessb t (zero t)) ys = true /\ List.length ys = List.length xs).
+      { induction xs as [|a l0 IHl]; intros l1 Hwl Hg; simpl in Hg.
+        - inversion Hg. simpl. auto.
+        - simpl in Hwl. apply andb_true_iff in Hwl as [Hwa Hwl].
+          destruct (decode t (zero t) (pr t a)) eqn:Ea; simpl in Hg; try discriminate.
+          destruct (go (map (pr t) l0)) eqn:Eg; simpl in Hg; try discriminate.
+          inversion Hg. subst.
+          destruct (IH _ a a0 Hnd Hc Hb Hwa Ea) as [H1 [H2 [H3 _]]].
+          destruct (IHl _ Hwl eq_refl) as [G1 [G2 [G3 G4]]].
+          simpl. rewrite H1, H2, H3, G1, G2, G3, G4. auto. }
+      destruct (go (map (pr t) l)) eqn:Eg; simpl in Hd; try discriminate. inversion Hd. subst.
+      destruct (Hgo l a Hw Eg) as [G1 [G2 [G3 G4]]].
+      simpl. repeat split; auto; try discriminate.
+      intro Hz. destruct a; try discriminate. destruct l; simpl in G4; try discriminate. reflexivity.
+    - (* TRec *) intros h fs IH cur v v1 Hnd Hc Hb Hw Hd.
+      destruct v; simpl in Hw; try discriminate. simpl in Hd, Hnd, Hc, Hb.
+      apply andb_true_iff in Hnd as [Hnd1 Hnd2]. destruct Hc as [Hc1 Hc2].
+      unfold base_of in Hb.
+      destruct (match reset h with Some d => d | None => cur end) as [| | | | |bm] eqn:Eb; try discriminate.
+      apply andb_true_iff in Hb as [Hwb Hb].
+      rewrite strict_prs in Hd.
+      destruct (overlay fs bm (prs fs m)) as [m1|] eqn:Eo; simpl in Hd; try discriminate.
+      destruct (post h m1) as [m2|] eqn:Ep; simpl in Hd; try discriminate.
+      inversion Hd. subst v1. apply Hc1 in Ep as Heq. subst m2.
+      destruct (IH bm m m1 [] Hnd2 (nodupb_NoDup _ Hnd1) (fun _ _ H => H) Hc2 Hb Hwb Hw Eo) as [H1 [H2 [H3 H4]]].
+      simpl. unfold base_of. rewrite Eb, Ep. unfold res_is. rewrite node_eqb_refl. rewrite H1, H2, H3, Hwb.
+      repeat split; auto; discriminate.
+    - (* FNil *) intros bm m m1 p _ _ _ _ Hb _ Hw Ho. destruct bm; destruct m; simpl in *; try discriminate.
+      inversion Ho. simpl. auto.
+    - (* FCons *) intros k o t IHt r IHr bm m m1 p Hnd HND Hp Hc Hb Hwb Hw Ho.
+      destruct bm as [|[kb b] bm']; destruct m as [|[k' v] m']; simpl in Hb, Hwb, Hw; try discriminate.
+      simpl in Hnd, Hc. apply andb_true_iff in Hnd as [Hnd1 Hnd2]. destruct Hc as [Hc1 Hc2].
+      apply andb_true_iff in Hb as [Hb1 Hb2]. apply andb_true_iff in Hb1 as [Hb0 Hb1].
+      apply andb_true_iff in Hw as [Hw Hw3]. apply andb_true_iff in Hw as [Hw1 Hw2].
+      apply andb_true_iff in Hwb as [Hwb Hwb3]. apply andb_true_iff in Hwb as [Hwb1 Hwb2].
+      inversion HND as [|? ? Hnot HND']. subst.
+      simpl in Ho.
+      destruct (o && isz t v) eqn:Eom.
+      + rewrite lookup_app_notin in Ho by (apply Hp; now left).
+        rewrite lookup_prs_notin in Ho by exact Hnot. simpl in Ho.
+        destruct (overlay r bm' (p ++ prs r m')) as [rest|] eqn:Er; simpl in Ho; try discriminate.
+        inversion Ho. subst m1.
+        destruct (IHr bm' m' rest p Hnd2 HND' (fun k1 H1 => Hp k1 (or_intror H1)) Hc2 Hb2 Hwb3 Hw3 Er) as [H1 [H2 [H3 H4]]].
+        apply good_parts in Hb0 as [G1 [G2 G3]].
+        apply andb_true_iff in Eom as [Eo1 Eo2]. subst o.
+        simpl. rewrite String.eqb_refl, G1, G2, H1, H2, H3. simpl.
+        repeat split; auto.
+        * destruct (isz t b); [now rewrite node_eqb_refl | now rewrite G3].
+        * intro Hz. apply andb_true_iff in Hz as [_ Hz]. rewrite Eo2. simpl. auto.
+      + rewrite lookup_app_notin in Ho by (apply Hp; now left).
+        simpl in Ho. rewrite String.eqb_refl in Ho.
+        destruct (decode t b (pr t v)) as [v1|] eqn:Ed; simpl in Ho; try discriminate.
+        replace (p ++ (k, pr t v) :: prs r m') with ((p ++ [(k, pr t v)]) ++ prs r m') in Ho by (now rewrite <- app_assoc).
+        destruct (overlay r bm' ((p ++ [(k, pr t v)]) ++ prs r m')) as [rest|] eqn:Er; simpl in Ho; try discriminate.
+        inversion Ho. subst m1.
+        assert (Hp' : forall k1, In k1 (keys r) -> ~ In k1 (map fst (p ++ [(k, pr t v)]))).
+        { intros k1 Hk1 Hin. rewrite map_app in Hin. apply in_app_or in Hin as [Hin|Hin].
+          - apply (Hp k1); [now right | exact Hin].
+          - simpl in Hin. destruct Hin as [<-|[]]. contradiction. }
+        destruct (IHr bm' m' rest _ Hnd2 HND' Hp' Hc2 Hb2 Hwb3 Hw3 Er) as [H1 [H2 [H3 H4]]].
+        destruct (IHt b v v1 Hnd1 Hc1 Hb1 Hw2 Ed) as [G1 [G2 [G3 [G4 G5]]]].
+        simpl. rewrite String.eqb_refl, G1, G2, H1, H2, H3. simpl.
+        repeat split; auto.
+        * destruct (o && isz t v1) eqn:E1; [|now rewrite G3].
+          apply andb_true_iff in E1 as [-> E1]. rewrite (G4 E1) in Eom. discriminate.
+        * intro Hz. apply andb_true_iff in Hz as [Hz1 Hz2]. rewrite (G4 Hz1). simpl. auto.
+  Qed.
+
+  (* load∘print is idempotent on every well-typed value when the hooks only check *)
+  Theorem idempotent_check_only : forall t cur v v1,
+      nodup_keys t = true -> check_only t -> bases_ok t cur = true -> wtb t v = true ->
+      decode t cur (pr t v) = Ok v1 -> decode t cur (pr t v1) = Ok v1.
+  Proof.
+    intros t cur v v1 Hnd Hc Hb Hw Hd.
+    destruct (proj1 idem_mut t cur v v1 Hnd Hc Hb Hw Hd) as [H1 [H2 [H3 _]]].
+    now apply roundtrip_generic.
+  Qed.
+End Idem.
+
+(* ------------------------------------------------------------------ the check-only sections *)
+Open Scope string_scope.
+
+Lemma bind_unit : forall (r : res unit) (k : res amap) x, bind r (fun _ => k) = Ok x -> k = Ok x.
+Proof. intros [[]|e] k x H; simpl in H; [exact H | discriminate]. Qed.
+
+Ltac chk H := repeat (apply bind_unit in H); inversion H; reflexivity.
+
+Lemma co_plain : forall m m', post HPlain m = Ok m' -> m' = m.
+Proof. intros m m' H. simpl in H. now inversion H. Qed.
+Lemma co_relabel : forall m m', post HRelabel m = Ok m' -> m' = m.
+Proof. intros m m' H. simpl in H. now inversion H. Qed.
+Lemma co_scrape : forall m m', post HScrape m = Ok m' -> m' = m.
+Proof. intros m m' H. simpl in H. unfold post_scrape in H. chk H. Qed.
+Lemma co_alerting : forall m m', post HAlerting m = Ok m' -> m' = m.
+Proof. intros m m' H. simpl in H. unfold post_alerting in H. chk H. Qed.
+Lemma co_am : forall m m', post HAM m = Ok m' -> m' = m.
+Proof. intros m m' H. simpl in H. unfold post_am in H. chk H. Qed.
+Lemma co_rw : forall m m', post HRW m = Ok m' -> m' = m.
+Proof. intros m m' H. simpl in H. unfold post_rw in H. chk H. Qed.
+Lemma co_rr : forall m m', post HRR m = Ok m' -> m' = m.
+Proof. intros m m' H. simpl in H. unfold post_rr in H. chk H. Qed.
+Lemma co_retention : forall m m', post HRetention m = Ok m' -> m' = m.
+Proof. intros m m' H. simpl in H. unfold post_retention in H. chk H. Qed.
+Lemma co_otlp : forall m m', post HOtlp m = Ok m' -> m' = m.
+Proof. intros m m' H. simpl in H. unfold post_otlp in H. destruct (getb _ m); chk H. Qed.
+
+(* the sections of the configuration all of whose hooks only check, with the content load
+   starts them from (their entry in DefaultConfig) *)
+Definition check_only_sections : list (ty * node) :=
+  [ (TSeq (TPtr rr_ty), NSeq []);            (* remote_read *)
+    (TSeq (TPtr rw_ty), NSeq []);            (* remote_write, incl. queue_config / metadata_config *)
+    (alerting_ty, NMap (zeros alerting_fs)); (* alerting: alertmanagers and relabel rules *)
+    (otlp_ty, NMap d_otlp);                  (* otlp *)
+    (TSeq (TPtr scrape_ty), NSeq []);        (* scrape_configs as ScrapeConfig.UnmarshalYAML leaves them (before Validate) *)
+    (relabel_seq, NSeq []);
+    (TSeq TStr, NSeq []) ].                  (* rule_files, scrape_config_files *)
+
+Lemma sections_check_only : forall t cur, In (t, cur) check_only_sections ->
+  nodup_keys t = true /\ check_only post t /\ bases_ok reset post t cur = true.
+Proof.
+  intros t cur Hin. simpl in Hin.
+  repeat (destruct Hin as [Hin|Hin]; [inversion Hin; subst; clear Hin|]); try contradiction;
+    (split; [vm_compute; reflexivity|]; split; [|vm_compute; reflexivity]);
+    simpl; repeat split; auto using co_plain, co_relabel, co_scrape, co_alerting, co_am, co_rw, co_rr, co_retention, co_otlp.
+Qed.
+
+Theorem idempotent_sections : forall t cur, In (t, cur) check_only_sections ->
+  forall v v1, wtb t v = true ->
+  decode reset post t cur (pr t v) = Ok v1 -> decode reset post t cur (pr t v1) = Ok v1.
+Proof.
+  intros t cur Hin v v1 Hw Hd. destruct (sections_check_only t cur Hin) as [H1 [H2 H3]].
+  eapply idempotent_check_only; eauto.
+Qed.
+
+(* non-vacuity: a remote_read list whose first reload differs (the lossy witness) is covered *)
+Example idempotent_sections_example :
+  exists v v1, wtb (TSeq (TPtr rr_ty)) v = true /\
+               decode reset post (TSeq (TPtr rr_ty)) (NSeq []) (pr (TSeq (TPtr rr_ty)) v) = Ok v1 /\
+               node_eqb v v1 = false.
+Proof.
+  exists (NSeq [NMap (setf "filter_external_labels" (NBool false) (setf "url" (NStr "http://x/") d_rr))]).
+  eexists. split; [vm_compute; reflexivity|]. split; vm_compute; reflexivity.
+Qed.
